@@ -5,6 +5,20 @@ From Verif Require Import Lib.Bytes.
 From Verif Require Export Model.KeysSig.
 Import ListNotations.
 
+(* identity lists the driver builds with its mkIds(count, width, tag): entry i is
+   tag, i / 256, i mod 256, 0, ..., 0 (long lists are sent in this compact form) *)
+Definition seq_id (width : nat) (tag : N) (i : N) : bytes :=
+  match width with
+  | 0%nat => []
+  | 1%nat => [tag]
+  | 2%nat => [tag; (i mod 256)%N]
+  | S (S (S k)) => tag :: ((i / 256) mod 256)%N :: (i mod 256)%N :: repeat 0%N k
+  end.
+Definition ids_seq (count width : nat) (tag : N) : list bytes :=
+  map (fun i => seq_id width tag (N.of_nat i)) (seq 0 count).
+Definition keys_seq (count width : nat) (tag : N) : list (bytes * keylabel) :=
+  map (fun b => (b, KeyOk)) (ids_seq count width tag).
+
 Inductive case :=
   (* gnosis / shutterservice ValidateDecryptionKeysSignatures(keys, extra, keyperSet) *)
 | CSigs (id : N) (fl : flavour) (ks : keyperset) (m : keysmsg)
